@@ -18,6 +18,10 @@ CLAIMED = {
          "Proof: header parse/serialise round trip (32-bit, 64-bit, to-end-of-file) and need-more-data on every proper header prefix; chunking invariance of the concatenation-normalised event stream for every byte string and every chunking (unconsumed bytes re-offered); for every well-formed Spec file the exact event stream, hence codestream = concatenated jxlc/jxlp payloads in order and every aux box delivered with type and exact raw payload; ill-formed layouts (duplicate/out-of-order jxlp, jxlc/jxlp mixing, jxlp after the final one, undersized jxlp/brob/size fields, brob of a reserved type) give an error; consumed <= input, strict progress measure, no panic site reachable. Partial: theorems are about the model (tied to the code by the correspondence run); Brotli decompression of brob payloads and AuxBoxList/eof handling in jxl-oxide are not modelled.",
          "Trusted: Lean kernel, axioms propext/Classical.choice/Quot.sound, the correspondence harness, usize=64 bit, caller follows the documented re-offer protocol. Models the code WITH the F1 repair (64-bit header split across feeds); the unrepaired behaviour is kept as parseHeaderOld with its witness.",
          "DESIGN.md §4 C10, §8 F1"),
+ "C02": ("Lean 4 model of the sub-grid geometry of jxl-grid (offset/width/height/stride over a buffer, every operation with its assertions) and of the three 'justified by construction' unchecked accesses (Bitstream::refill, ANS bucket lookup, access plans + scratch of the x86-64 horizontal squeeze kernels), theorems over all inputs; tied to the code by tag-and-read-back operation sequences on real MutableSubgrids (implementation-side ownership oracle, then model diff), Bitstream state histories, source pins of the transcribed index expressions, and canary-guarded runs of every squeeze/RCT kernel entry (hook H7) on all widths 1..130 x heights 1..20 in the checked and the optimised build; thorough: the same under valgrind memcheck",
+         "Proof (partial): validity of every sub-grid operation (every reachable element offset < buffer length), split/groups pairwise disjoint + within parent + cover, merge = union and merge-of-split restores, get/get_row in bounds, refill fast path in bounds for every reader history, ANS index < table length for every accepted histogram and state, squeeze horizontal AVX2/SSE4.1 access plans in bounds for all widths/heights and scratch written before read are Lean theorems about the model. Partial because Lean cannot speak about Rust's aliasing model, provenance or lifetimes: the theorems are index arithmetic and ownership geometry; the tie to the code is differential testing. Vertical squeeze kernels, NEON/wasm kernels, EPF/Gabor/DCT SIMD, fb.rs, as_vectored are not modelled (vertical squeeze and RCT are run with canaries; the rest is outside this check). Canary/valgrind runs are implementation-side oracles, not proofs.",
+         "Trusted: Lean kernel, axioms propext/Classical.choice/Quot.sound, the correspondence harness and its source pins, usize = 64 bit, x86-64 with the CPU paths this machine selects (AVX2; SSE4.1 kernels called directly). Observation (not a violation of C02 as stated, not reachable from decoded bytes): in the optimised build the safe functions into_groups_with_fixed_count and from_buf are unsound for arguments whose products overflow usize (witness theorems + corpus/c02 replay, fix proposed).",
+         "DESIGN.md §4 C02, §3 H7"),
 }
 NOT_YET = "machinery for this property is not built yet in this snapshot (planned, see DESIGN.md §4/§10); it is claimed as soon as its theorems and correspondence check land"
 
